@@ -54,7 +54,7 @@ var failingStmts = []string{"{{ 1 / z0 }}", "{{ undefinedAtFailurePoint }}", `{{
 
 type c17Cell struct {
 	Page   string `json:"page"`
-	FP     int    `json:"fp"`   // -1 no failure, -2 template does not exist
+	FP     int    `json:"fp"`   // -1 no failure, -2 template does not exist, -3 unconvertible data, -4 the custom error page itself requested with unconvertible data
 	Kind   int    `json:"kind"` // failing statement kind
 	Debug  bool   `json:"debug"`
 	Custom string `json:"custom"` // "" valid failing missing
@@ -66,6 +66,10 @@ func (c c17Cell) class() string {
 		out = "ok"
 	} else if c.FP == -2 {
 		out = "notfound"
+	} else if c.FP == -3 {
+		out = "baddata"
+	} else if c.FP == -4 {
+		out = "errorpage-itself"
 	}
 	cu := c.Custom
 	if cu == "" {
@@ -92,7 +96,7 @@ func buildC17(t *Tree, cell c17Cell) *Scenario {
 	switch cell.Custom {
 	case "valid":
 		cfg.ErrPage = "errors/500"
-		sc.Files = append(sc.Files, File{Path: t.path("errors/500"), Data: "<h1>CUSTOM_ERROR_PAGE</h1><p>{{ 40 + 2 }}</p>", Role: "errorpage"})
+		sc.Files = append(sc.Files, File{Path: t.path("errors/500"), Data: "{{ n1 = \"now a string\" }}{{ s0 = 5 }}{{ status = \"unavailable\" }}<h1>CUSTOM_ERROR_PAGE</h1><p>{{ 40 + 2 }} {{ status }}</p>", Role: "errorpage"})
 	case "failing":
 		cfg.ErrPage = "errors/500"
 		sc.Files = append(sc.Files, File{Path: t.path("errors/500"), Data: "<h1>CUSTOM_ERROR_PAGE</h1>{{ undefinedInErrorPage }}", Role: "errorpage"})
@@ -101,14 +105,22 @@ func buildC17(t *Tree, cell c17Cell) *Scenario {
 	}
 	sc.Setup = []Op{{Kind: "newtemplate", Cfg: &cfg}}
 	name := cell.Page
+	data := t.Data
 	if cell.FP == -2 {
 		name = "no/such/" + cell.Page
 	}
+	if cell.FP <= -3 {
+		// a value the data conversion rejects: the render fails before any statement runs
+		data = &Val{T: "map", K: append(append([]string{}, t.Data.K...), "zzchan"), V: append(append([]Val{}, t.Data.V...), Val{T: "chan"})}
+	}
+	if cell.FP == -4 && cfg.ErrPage != "" {
+		name = cfg.ErrPage
+	}
 	sc.Ops = []Op{
-		{Kind: "string", Name: name, Data: t.Data},
-		{Kind: "response", Name: name, Data: t.Data},
-		{Kind: "response", Name: name, Data: t.Data, W: &WriterFault{FailAt: 1}},
-		{Kind: "response", Name: name, Data: t.Data, W: &WriterFault{FailAt: 1, Short: true}},
+		{Kind: "string", Name: name, Data: data},
+		{Kind: "response", Name: name, Data: data},
+		{Kind: "response", Name: name, Data: data, W: &WriterFault{FailAt: 1}},
+		{Kind: "response", Name: name, Data: data, W: &WriterFault{FailAt: 1, Short: true}},
 	}
 	sc.Extra = map[string]any{"cell": cell.class(), "sentinel": t.Sent[cell.Page], "tpldir": t.Cwd + "/" + strings.Trim(t.Cfg.Dir, "/")}
 	return sc
@@ -246,6 +258,9 @@ func checkC17(sc *Scenario, acc *Acc) (*c17Fail, bool, bool) {
 		} else {
 			for _, pr := range [][2]string{{"message", str.Msg}, {"path", str.Path}, {"line", fmt.Sprint(str.Line)}} {
 				what, needle := pr[0], pr[1]
+				if needle == "" {
+					continue // e.g. a data-conversion error carries no path: nothing to show
+				}
 				if !containsEither(resp.Body, needle) {
 					return &c17Fail{"debug mode is on but the body lacks the error " + what, "debug-missing-" + what, needle, short(resp.Body)}, false, false
 				}
@@ -299,7 +314,7 @@ func (p c17) Run(seed uint64, run int, tier string, acc *Acc) *Violation {
 	var first *Violation
 	seen := map[string]bool{}
 	cells := 0
-	for fp := -2; fp < nfp; fp++ {
+	for fp := -4; fp < nfp; fp++ {
 		kind := r.Intn(len(failingStmts))
 		for _, debug := range []bool{false, true} {
 			for _, custom := range []string{"", "valid", "failing", "missing"} {
@@ -339,7 +354,7 @@ func (p c17) Run(seed uint64, run int, tier string, acc *Acc) *Violation {
 	for _, custom := range []string{"", "valid", "failing", "missing"} {
 		var chain []*Scenario
 		n := 0
-		for fp := nfp - 1; fp >= -2; fp-- {
+		for fp := nfp - 1; fp >= -4; fp-- {
 			for _, debug := range []bool{true, false} {
 				n++
 				if n > 10 {
